@@ -20,3 +20,5 @@ pub mod backends;
 pub mod parser;
 #[cfg(test)]
 pub mod test_utils;
+#[cfg(feature = "verif-sim")]
+pub mod verif_sim;
